@@ -3,10 +3,10 @@
 ID=$1; NAME=$2; NEEDS=$3; CAUGHT=$4; MISSED=$5
 D=/verif/seeded/$NAME
 rm -rf $D; mkdir -p $D
-cp /tmp/seed/$ID/SEED/patch.diff $D/patch.diff
-cp -r /tmp/seed/$ID/SEED/demo $D/demo
+cp ${SEED_BASE:-/tmp/seed}/$ID/SEED/patch.diff $D/patch.diff
+cp -r ${SEED_BASE:-/tmp/seed}/$ID/SEED/demo $D/demo
 rm -f $D/demo/*.log
-cp /tmp/seed/$ID/SEED/NOTES.md $D/NOTES.md
+cp ${SEED_BASE:-/tmp/seed}/$ID/SEED/NOTES.md $D/NOTES.md
 python3 - "$ID" "$NAME" "$NEEDS" "$CAUGHT" "$MISSED" <<'PY'
 import json,sys
 pid,name,needs,caught,missed=sys.argv[1:6]
